@@ -140,20 +140,26 @@ impl<'a> ResponseData for &'a str {
     }
 }
 
+/// Write the inside of a string response: embedded double quotes are doubled
+fn push_string_content(formatter: &mut dyn Formatter, s: &[u8]) -> Result<()> {
+    let mut first = true;
+    for ss in s.split(|x| *x == b'"') {
+        if !first {
+            formatter.push_str(br#""""#)?;
+        }
+        formatter.push_ascii(ss)?;
+        first = false;
+    }
+    Ok(())
+}
+
 impl<'a> ResponseData for &'a [u8] {
     fn format_response_data(&self, formatter: &mut dyn Formatter) -> Result<()> {
         if !self.is_ascii() {
             Err(ErrorCode::ExecutionError.into())
         } else {
-            let mut first = true;
             formatter.push_byte(b'"')?;
-            for ss in self.split(|x| *x == b'"') {
-                if !first {
-                    formatter.push_str(br#""""#)?;
-                }
-                formatter.push_ascii(ss)?;
-                first = false;
-            }
+            push_string_content(formatter, self)?;
             formatter.push_byte(b'"')
         }
     }
@@ -165,10 +171,14 @@ impl ResponseData for Error {
         formatter.data_separator()?;
 
         if let Some(ext) = self.get_extended() {
+            // Same rules as for any other string response: ASCII only, embedded quotes doubled
+            if !self.get_message().is_ascii() || !ext.is_ascii() {
+                return Err(ErrorCode::ExecutionError.into());
+            }
             formatter.push_byte(b'"')?;
-            formatter.push_str(self.get_message())?;
+            push_string_content(formatter, self.get_message())?;
             formatter.push_byte(b';')?;
-            formatter.push_str(ext)?;
+            push_string_content(formatter, ext)?;
             formatter.push_byte(b'"')
         } else {
             self.get_message().format_response_data(formatter)
